@@ -69,7 +69,7 @@ def run(chk):
         vmv = d["vm"]
         cmds = cmds[:-1] + (["sdefi ec %s" % vmv] if vmv not in ("undef", "trap") else []) + ["scan " + hx(b"x")]
         final.append((cid, cmds))
-    out, err = vlib.run_cases(hscan, final, timeout=1800)
+    out, err = vlib.run_cases(hscan, final, timeout=1800, jobs=16)
     for i, (op, a, b) in enumerate(cases):
         d = dict(x.split("=", 1) for x in mres[i].split())
         expr = "%s %s %s" % (lit(a), OPS[op], lit(b))
@@ -167,9 +167,13 @@ def twins(chk, hscan, K):
                # the required-strings analysis: none of these strings is in the data; a quantifier that is not a constant may be 0
                'rule of_none { strings: $x = "zzqqzzqq1" $y = "qqzzqqzz2" condition: nof of them }\n'
                'rule of_none_c { strings: $x = "zzqqzzqq1" $y = "qqzzqqzz2" condition: %d of them }\n'
-               'rule of_none_e { strings: $x = "zzqqzzqq1" $y = "qqzzqqzz2" condition: (filesize - filesize + %d) of them }\n') % (
+               'rule of_none_e { strings: $x = "zzqqzzqq1" $y = "qqzzqqzz2" condition: (filesize - filesize + %d) of them }\n'
+               'rule ofin_none { strings: $x = "zzqqzzqq1" $y = "qqzzqqzz2" condition: nof of them in (0..9) }\n'
+               'rule ofin_none_c { strings: $x = "zzqqzzqq1" $y = "qqzzqqzz2" condition: %d of them in (0..9) }\n'
+               'rule ofat_none { strings: $x = "zzqqzzqq1" $y = "qqzzqqzz2" condition: nof of them at 0 }\n'
+               'rule ofat_none_c { strings: $x = "zzqqzzqq1" $y = "qqzzqqzz2" condition: %d of them at 0 }\n') % (
             rulegen.yara_escape(text), rulegen.yara_escape(text), rulegen.yara_escape(text), other,
-            rulegen.yara_escape(text), off, rulegen.yara_escape(text), off, n_of, n_of)
+            rulegen.yara_escape(text), off, rulegen.yara_escape(text), off, n_of, n_of, n_of, n_of)
         s = hx(src.encode())
         # A: compiled with the final values
         cases.append(("A%d" % i, ["newcompiler", "defi ext %d" % off, "defi nof %d" % n_of, "add " + s, "getrules",
@@ -181,7 +185,7 @@ def twins(chk, hscan, K):
         cases.append(("C%d" % i, ["newcompiler", "defi ext %d" % other, "defi nof %d" % ((n_of + 2) % 3), "add " + s, "getrules",
                                   "reload", "use loaded", "scanner 0", "sdefi ext %d" % off, "sdefi nof %d" % n_of, "scan " + hx(buf)]))
         meta[i] = {"text": text.hex(), "off": off, "other": other, "nof": n_of, "buf": buf.hex(), "rules": src}
-    out, err = vlib.run_cases(hscan, cases, timeout=1800)
+    out, err = vlib.run_cases(hscan, cases, timeout=1800, jobs=16)
 
     def verdicts(line):
         return sorted(re.findall(r"M:default:(\w+)", line))
@@ -204,6 +208,9 @@ def twins(chk, hscan, K):
             chk.violation("scanner-redefine", "external redefined at scanner level is not honoured: %s vs %s" % (va, verdicts(c[0])), rep)
         elif ("forced" in va) != ("plain" in va):
             chk.violation("forced-eval", "forcing evaluation changes the verdict: %s" % va, rep)
+        elif ("ofin_none" in va) != ("ofin_none_c" in va) or ("ofat_none" in va) != ("ofat_none_c" in va):
+            chk.violation("required-strings", "`N of them in (..)` / `N of them at ..` with N = %d given as an external vs a literal, none of the strings in the "
+                          "data: verdicts differ: %s" % (meta[i]["nof"], [x for x in va if x.startswith("of")]), rep)
         elif len(set(x in va for x in ("of_none", "of_none_c", "of_none_e"))) != 1:
             chk.violation("required-strings", "`N of them` with N = %d given as an external / an expression / a literal, none of the strings in the data: "
                           "verdicts differ: %s" % (meta[i]["nof"], [x for x in ("of_none", "of_none_c", "of_none_e") if x in va]), rep)
@@ -254,7 +261,7 @@ def fastmode_trees(chk, hscan, K):
                       ["add " + hx(src.encode()), "getrules", "scanner 0", "scan " + hx(buf),
                        "sflags %d" % K["SCAN_FLAGS_FAST_MODE"], "scan " + hx(buf)]))
         meta["f%d" % i] = (src, buf)
-    out, err = vlib.run_cases(hscan, cases, timeout=3000, args=["60"])
+    out, err = vlib.run_cases(hscan, cases, timeout=3000, args=["60"], jobs=16)
     okn = 0
     for cid, _ in cases:
         sc = [l for l in out.get(cid, []) if l.startswith("scan msgs=")]
